@@ -37,6 +37,11 @@ type ExploreStats struct {
 // Explore enumerates all schedules of body with at most `bound` preemptions (depth-first,
 // stateless: every schedule re-runs body from scratch). visit is called after each execution and
 // returns false to stop. replay != nil runs exactly that schedule.
+// DevBound additionally limits the number of non-default choices of a schedule, free switches at
+// blocking points included (delay bounding); 0 means no limit. With several threads that block
+// often, free switches alone make the schedule space exponential.
+var DevBound = 0
+
 func Explore(bound, maxSched int, r *core.Rec, replay []int, body func(), visit func(e Exec) bool) ExploreStats {
 	var st ExploreStats
 	stop := false
@@ -106,7 +111,7 @@ func Explore(bound, maxSched int, r *core.Rec, replay []int, body func(), visit 
 			stop = true
 			return
 		}
-		pre := 0
+		pre, dev := 0, 0
 		for i := 0; i < len(trace); i++ {
 			if i >= len(prefix) {
 				for alt := 1; alt < trace[i].n; alt++ {
@@ -114,7 +119,7 @@ func Explore(bound, maxSched int, r *core.Rec, replay []int, body func(), visit 
 					if trace[i].runningEnabled {
 						c++
 					}
-					if c > bound {
+					if c > bound || (DevBound > 0 && dev+1 > DevBound) {
 						continue
 					}
 					np := make([]int, i+1)
@@ -128,8 +133,11 @@ func Explore(bound, maxSched int, r *core.Rec, replay []int, body func(), visit 
 					}
 				}
 			}
-			if trace[i].chosen > 0 && trace[i].runningEnabled {
-				pre++
+			if trace[i].chosen > 0 {
+				dev++
+				if trace[i].runningEnabled {
+					pre++
+				}
 			}
 		}
 	}
@@ -151,6 +159,9 @@ func eventFailures(prefix string, s *vsched.Sched) []core.Failure {
 }
 
 func countExplore(r *core.Rec, st ExploreStats) {
+	if st.Capped {
+		r.Count(fmt.Sprintf("capped_at_%d_steps_per_schedule", st.MaxSteps/10*10), 1)
+	}
 	r.Count("schedules", int64(st.Schedules))
 	r.Count("schedules_with_preemption", int64(st.Preemptive))
 	if st.Capped {
